@@ -44,3 +44,52 @@ def _log(eng, st, x):
 @spec("SQRT")
 def _sqrt(eng, st, x):
     return _SQRT(to_z3(to_real(x)))
+
+
+# ----------------------------------------------------------------------------- lemmas (each proved once, used by explicit instances)
+from pyvc.symex import LemmaInst
+
+LEMMAS = {}
+
+
+def lemma(name, sorts):
+    """Register a lemma: f(*terms) -> (premises, conclusion). `sorts` gives the parameter sorts for its own proof."""
+    def deco(f):
+        LEMMAS[name] = (f, sorts)
+
+        def inst(eng, st, *args):
+            zargs = [to_z3(to_real(a)) if srt == "real" else to_z3(a) for a, srt in zip(args, sorts)]
+            prem, concl = f(*zargs)
+            return LemmaInst(name, prem, concl)
+
+        SPEC_FUNCS[name] = inst
+        return f
+    return deco
+
+
+def lemma_obligations(name):
+    """[(label, hyps, goal)] proving the lemma (a lemma may define its own multi-step proof via LEMMA_PROOFS)."""
+    if name in LEMMA_PROOFS:
+        return LEMMA_PROOFS[name]()
+    prem, concl = lemma_obligation(name)
+    return [("", prem, concl)]
+
+
+LEMMA_PROOFS = {}
+
+
+def lemma_obligation(name):
+    """(hyps, goal) of the lemma itself over fresh constants."""
+    f, sorts = LEMMAS[name]
+    consts = [z3.Real(f"{name}_a{i}") if srt == "real" else z3.Int(f"{name}_a{i}") for i, srt in enumerate(sorts)]
+    prem, concl = f(*consts)
+    return prem, concl
+
+
+@lemma("L_cusum", ["real"] * 6)
+def _l_cusum(a, b, x, y, A, B):
+    """Squared CUSUM == L2 change score in prefix-sum form (pure real algebra)."""
+    n = a + b
+    prem = [a > 0, b > 0, x >= 0, y >= 0, x * x == b / (n * a), y * y == a / (n * b)]
+    concl = (x * A - y * B) * (x * A - y * B) == A * A / a + B * B / b - (A + B) * (A + B) / n
+    return prem, concl
